@@ -6,7 +6,7 @@ from enum import Enum, IntEnum
 
 from asyncfix import FMsg, FTag
 from asyncfix.codec import Codec
-from asyncfix.errors import FIXConnectionError
+from asyncfix.errors import FIXConnectionError, FIXMessageError
 from asyncfix.journaler import Journaler
 from asyncfix.message import FIXMessage, MessageDirection
 from asyncfix.protocol import FIXProtocolBase
@@ -594,10 +594,13 @@ class AsyncFIXConnection:
 
         if self._connection_role == ConnectionRole.ACCEPTOR:
             assert self._connection_state == ConnectionState.LOGON_INITIAL_RECV
-            if (
-                FTag.EncryptMethod not in logon_msg
-                or FTag.HeartBtInt not in logon_msg
-            ):
+            try:
+                encrypt_method = logon_msg[FTag.EncryptMethod]
+                heartbt_int = logon_msg[FTag.HeartBtInt]
+            except FIXMessageError:
+                # tag is missing or repeated
+                encrypt_method = heartbt_int = None
+            if encrypt_method is None or heartbt_int is None:
                 # Logon can't be answered, session is not established
                 await self.disconnect(
                     ConnectionState.DISCONNECTED_BROKEN_CONN,
@@ -608,8 +611,8 @@ class AsyncFIXConnection:
                 return
             if msg_seq_num >= self._session.next_num_in:
                 msg_logon = FIXMessage(FMsg.LOGON)
-                msg_logon.set(FTag.EncryptMethod, logon_msg[FTag.EncryptMethod])
-                msg_logon.set(FTag.HeartBtInt, logon_msg[FTag.HeartBtInt])
+                msg_logon.set(FTag.EncryptMethod, encrypt_method)
+                msg_logon.set(FTag.HeartBtInt, heartbt_int)
                 await self.send_msg(msg_logon)
 
         if msg_seq_num == self._session.next_num_in:
